@@ -70,9 +70,14 @@ func monC05Sim(c *Case, tr *Trace) []Violation {
 	}
 	ix := buildWireIndex(tr)
 	// the volume must complete under any reader pacing: nothing may be pending once stalled consumers were released
+	// (these workloads contain no fault, cancellation or deadline: an operation that returns only once the harness ends the
+	// tunnels did not complete either)
+	endStep, hasEnd := tr.PhaseStart["end"]
 	for _, o := range tr.Ops {
 		if o.Pending() {
 			add("operation_never_completed", o.Start, "%s %s#%d (rpc %d) never returned: a stream did not complete", o.Actor, o.Kind, o.Idx, o.RPC)
+		} else if hasEnd && len(c.Events) == 0 && o.Start < endStep && o.End >= endStep {
+			add("operation_never_completed", o.Start, "%s %s#%d (rpc %d) was still blocked when every consumer had been released and the run was drained (step %d); it returned only when the harness ended the tunnel: %s", o.Actor, o.Kind, o.Idx, o.RPC, endStep, o.Err)
 		}
 	}
 	for _, sn := range tr.Snapshots {
